@@ -10,4 +10,6 @@ def converterFacts : List (String × Bool) := [("helper_called_only_on_converter
 
 def processDependent : List (String × String × String) := []
 
+def setIterations : List (String × String × String) := [("_public.py", "inline", "missing")]
+
 end Generated.FrontFacts
